@@ -5,7 +5,7 @@ PROP_FILES = ["Structure/Properties_C06.v"]
 MANIFEST = dict(
     technique="Coq proof (commuting per-entry updates + induction over the tree; case analysis of the limit check) on a Gallina model of StructureScanState / StructureChecker, glob answers entering as oracle columns; tied by differential execution on real directory trees (both scanner back-ends, library pipeline and the real CLI) and on arbitrary DirStats maps",
     text="Theorems C06_counts_exact (for every tree with distinct sibling names and EVERY processing order of the walked entries the dir_stats map equals the true counts), C06_order_independent, C06_fail_iff, C06_zero_forbids, C06_unlimited_disables, C06_warn_iff, C06_last_rule_wins_with_inheritance, C06_relative_depth, C06_explain_same_limits hold without bounds. The tie to the Rust code: generated trees (width<=12, depth<=7, hidden entries, empty dirs, symlinks/FIFOs, ignored and excluded subtrees, count_exclude) x generated [structure] configurations, observed through the library pipeline (full dir_stats), `check --format json` and `explain --format json`, compared with the extracted model, with the generator's own count of the tree it built and with the Coq spec of the verdicts.",
-    note="Trusted: Coq kernel, extraction, harness sgv-structure (oracle columns are computed with the real compiled globset matchers of the real configuration), python generators. Not modelled: walkdir/ignore traversal and .gitignore semantics (the ignored set enters as data and is cross-checked against the generator's reading of the few ignore forms it writes), f64 parsing of TOML, multiple scan roots, scan roots spelled other than a plain relative name (D7, reserved for C08).",
+    note="Trusted: Coq kernel, extraction, harness sgv-structure (oracle columns are computed with the real compiled globset matchers of the real configuration), python generators. Not modelled: walkdir/ignore traversal and .gitignore semantics (the ignored set enters as data and is cross-checked against the generator's reading of the few ignore forms it writes), f64 parsing of TOML, multiple scan roots, absolute scan roots (the roots used are `t` and `./t`; since fixes/D07 every pattern site matches the normalised path and the check holds both spellings, `./`-spelled scopes, excludes and DirStats keys to the same answers).",
     ref="5 (C06)")
 
 FLAVOURS = ["limits"] * 5 + ["probe"] * 2 + ["mix"] * 2 + ["placement"]
@@ -19,7 +19,7 @@ def nontrivial(c, ev):
 def run(ctx):
     quick = ctx.tier == "quick"
     run_structure(ctx, "C06", PROP_FILES, FLAVOURS, 2000 if quick else 12000, 5 if quick else 6, 3000 if quick else 20000, nontrivial)
-    ctx.cov["rule"] = ("seeded generator: real directory trees under a sandbox (scan root `t`; width<=12, depth<=7; hidden names, empty dirs, symlinks to file/dir/nothing, FIFOs; "
+    ctx.cov["rule"] = ("seeded generator: real directory trees under a sandbox (scan root spelled `t` or `./t`; scopes, excludes and DirStats keys also written with a leading `./`; width<=12, depth<=7; hidden names, empty dirs, symlinks to file/dir/nothing, FIFOs; "
                        ".gitignore files with name/extension/anchored/dir-only forms; scanner.exclude and count_exclude patterns of six forms) x [structure] configurations "
                        "(global and per-rule limits placed within +-2 of real figures, -1/0, warn_*_at, percentage thresholds, overlapping scopes, relative_depth, 6% rejected configurations), "
                        "run through the library pipeline with both back-ends, every 5th also through `sgcli check` + `explain`; plus StructureChecker::check on arbitrary DirStats maps with "
@@ -30,7 +30,7 @@ def run(ctx):
         "walkdir / ignore traversal and .gitignore semantics are not modelled: the set of yielded entries is data, cross-checked against the generator's own expectation",
         "binary64 product and ceiling through Coq.Floats.SpecFloat (no axioms); TOML float parsing trusted"]
     ctx.assumptions = ["sibling names in a directory are pairwise distinct (file-system invariant; hypothesis wf_tree of C06_counts_exact)",
-                       "a single scan root spelled as a plain relative directory name (other spellings: D7, property C08)",
+                       "a single relative scan root, spelled `t` or `./t` (absolute roots: property C08)",
                        "the scan root itself is not matched by scanner.exclude"]
 
 
